@@ -383,6 +383,11 @@ class GroupBy:
         Count of observations for each group as numpy array containing the ikey or codes.
         Includes empty groups
         """
+        if isinstance(mask, pd.Series) and self._key_index is not None:
+            if not self._key_index.equals(mask.index):
+                raise ValueError(
+                    "Pandas index of the mask does not match that of the group keys"
+                )
         if self.key_is_chunked:
             group_key, first_chunk_in, mask_chunks = (
                 self._resolve_mask_argument_into_chunks(mask)
